@@ -299,6 +299,47 @@ def crash_oracle(case, obs):
                     if sent_at >= down[1] + tick:
                         out.append(("event %d: the client received a reply to datagram %d (sent at %d ns) while n0 is down since event %d" % (
                             k, x[4], sent_at, down[0]), None))
+    # --- destructors that look for a runtime (async-drop idiom) ---------------------------------------
+    # nothing a dying incarnation's destructors spawn may ever run, and the values owned by its local
+    # tasks are dropped outside of any runtime (in particular not inside the next incarnation's)
+    for g in obs.get("ghost_runs", []):
+        out.append(("a task spawned by a destructor of n%d incarnation %d (value owned by a %s task, dropped in event %d) ran in event %d: "
+                    "code of a crashed / replaced incarnation executes" % (g[0], g[1], "spawn_local" if g[2] == 0 else "tokio::spawn", g[3], g[4]), None))
+    fault_idx = {k: (name, victims) for (k, name, victims, before, after, r) in faults if r == "ok"}
+    for d in obs.get("spawn_drops", []):
+        host, inc_, owner, evi, present = d
+        if evi in fault_idx and owner == 0 and present:
+            out.append(("event %d (%s): the destructor of a value owned by a spawn_local task of n%d incarnation %d found a tokio runtime "
+                        "(Handle::try_current() is Ok): it runs inside a runtime that outlives the incarnation" % (evi, fault_idx[evi][0], host, inc_), None))
+    for (k, name, victims, before, after, r) in faults:
+        if r != "ok" or before is None:
+            continue
+        for h in victims:
+            if h in (0, 1) and before["hosts"][h]["running"]:
+                old = before["hosts"][h]["starts"] - 1
+                polled = any(e[0] == h and e[1] == old for e in log)
+                got = {d[2] for d in obs.get("spawn_drops", []) if d[0] == h and d[1] == old and d[3] == k}
+                if polled and got != {0, 1}:
+                    out.append(("event %d (%s): of the two runtime-seeking values of n%d incarnation %d only those owned by %s were dropped by the call" % (
+                        k, name, h, old, sorted(got)), None))
+    # --- the loopback connection inside n0 works in every incarnation that lives long enough ---------------
+    life = {}
+    for x in log:
+        if x[0] == 0:
+            life.setdefault(x[1], [x[6], x[6]])[1] = x[6]
+    ends = {}
+    for (k, name, victims, before, after, r) in faults:
+        if 0 in victims and r == "ok" and before["hosts"][0]["running"]:
+            ends.setdefault(before["hosts"][0]["starts"] - 1, k)
+    for inc_, (first, lastev) in life.items():
+        until = ends.get(inc_, len(evs) - 1)
+        nst = steps_between(evs, first, until)
+        lo = [x for x in log if x[0] == 0 and x[1] == inc_ and x[2] == "lo"]
+        bad = [x for x in lo if x[3] == "end" or (x[3] in ("bind", "connect") and x[4 if x[3] == "connect" else 5] != "ok")]
+        if bad:
+            out.append(("n0 incarnation %d: its loopback connection failed: %s" % (inc_, bad[0][2:6]), None))
+        elif nst >= 8 and not any(x[3] == "echo" for x in lo):
+            out.append(("n0 incarnation %d ran for %d steps without a single echo over its loopback connection (%s)" % (inc_, nst, [x[3] for x in lo]), None))
     # --- multicast: the other members of a group survive the crash / bounce of one member ---------
     members = [0] + list(case["cfg"].get("mc_members", []))
     for (k, name, victims, before, after, r) in faults:
@@ -495,7 +536,7 @@ class Spec(PropSpec):
     subsys = "SimCore"
     props_file = "C04.v"
     theorems = ["c04_crash_stops", "c04_not_polled", "c04_bounce_once", "c04_starts_only_bounce", "c04_isolation",
-                "c04_tables_released", "c04_owns_api", "c04_crashed_stack_answers", "c04_crashed_flag", "c04_nonvacuous_core", "c04_nonvacuous_tables"]
+                "c04_tables_released", "c04_owns_api", "c04_crashed_stack_answers", "c04_crashed_flag", "c04_loopback_silent", "c04_nonvacuous_core", "c04_nonvacuous_tables"]
     coq_targets = ["C04.vo"]
     consts = []
     anchors = ANCHORS
